@@ -223,6 +223,7 @@ type scen struct {
 	seed    int64
 
 	mu      sync.Mutex
+	t0      time.Time
 	events  []ev
 	nextC   int
 	crashed atomic.Bool
@@ -231,6 +232,10 @@ type scen struct {
 }
 
 func (s *scen) emit(e ev) {
+	if s.t0.IsZero() {
+		s.t0 = time.Now()
+	}
+	e["t"] = int(time.Since(s.t0) / time.Millisecond)
 	s.events = append(s.events, e)
 }
 
